@@ -419,6 +419,26 @@ impl feoxdb::verif::io::Observer for Appear {
     }
 }
 
+/// moves the source file's modification time at the first device write it sees (i.e. while the
+/// migration is copying): the source "changed" under the migration's feet
+struct Touch {
+    path: String,
+    armed: std::sync::atomic::AtomicBool,
+}
+
+impl feoxdb::verif::io::Observer for Touch {
+    fn event(&self, kind: feoxdb::verif::io::Kind, _fd: i32, _sector: u64, _len: usize, _data: &[u8]) -> feoxdb::verif::io::Decision {
+        use feoxdb::verif::io::Kind::*;
+        if matches!(kind, Write | RingWrite) && self.armed.swap(false, std::sync::atomic::Ordering::SeqCst) {
+            if let Ok(f) = std::fs::OpenOptions::new().write(true).open(&self.path) {
+                let later = std::time::SystemTime::now() + std::time::Duration::from_secs(10);
+                let _ = f.set_modified(later);
+            }
+        }
+        feoxdb::verif::io::Decision::Proceed
+    }
+}
+
 fn body_digest(path: &str) -> u64 {
     let after = std::fs::read(path).unwrap();
     if after.len() < 16 * BS {
@@ -1204,6 +1224,34 @@ fn sec_migrate(s: &mut Sink, rng: &mut Rng, workloads: usize, oracle: &mut Vec<S
             let pre_existing = rng.chance(1, 10);
             if pre_existing {
                 std::fs::write(&dst, b"precious").unwrap();
+            }
+            // sometimes the source is touched while the copy is under way: whatever migrate() answers, an error
+            // must leave nothing at the destination
+            let touched = !pre_existing && rng.chance(1, 6);
+            if touched {
+                let t = std::sync::Arc::new(Touch { path: src.clone(), armed: std::sync::atomic::AtomicBool::new(true) });
+                feoxdb::verif::io::set_observer(Some(t));
+                let r = catch_unwind(AssertUnwindSafe(|| {
+                    feoxdb::migrate(feoxdb::MigrationOptions::new(src.clone(), dst.clone()).allow_ambiguous_legacy_recovery(amb))
+                }));
+                feoxdb::verif::io::set_observer(None);
+                *s.hist.entry("migrate-source-touched-meanwhile".to_string()).or_insert(0) += 1;
+                match &r {
+                    Ok(Err(e)) if std::path::Path::new(&dst).exists() => oracle.push(format!("migrate {}: the source was touched during the copy, migrate() failed ({}) but left a file at the destination", src, merr_name(e))),
+                    Err(_) => oracle.push(format!("migrate {}: panicked when the source was touched during the copy", src)),
+                    _ => {}
+                }
+                for e in std::fs::read_dir(&s.dir).unwrap().flatten() {
+                    let n = e.file_name().to_string_lossy().to_string();
+                    if n.contains(".feox-migrate-") {
+                        oracle.push(format!("migrate {}: temporary file {} left behind", src, n));
+                        let _ = std::fs::remove_file(e.path());
+                    }
+                }
+                let _ = std::fs::remove_file(&dst);
+                // (the mtime moved: restore the bytes' file for the next variant)
+                std::fs::write(&src, &img).unwrap();
+                continue;
             }
             // sometimes a foreign file appears at the destination while the migration is under way
             let appears = !pre_existing && rng.chance(1, 6);
